@@ -125,6 +125,9 @@ func raceRun(a []string) (string, []string) {
 		if want, ok := raceBase[f[1]]; ok && want != f[2] {
 			direct = append(direct, fmt.Sprintf("action %s returned a different result than when run alone: %s vs %s", f[1], truncate(f[2], 80), truncate(want, 80)))
 		}
+		if strings.HasPrefix(f[2], "wrong:") {
+			direct = append(direct, "action "+f[1]+": "+truncate(f[2], 160))
+		}
 		if strings.HasPrefix(f[2], "panic") {
 			direct = append(direct, "action "+f[1]+" panicked: "+truncate(f[2], 120))
 		}
@@ -184,6 +187,8 @@ func runC19(r *Runner) string {
 	groups := [][]string{
 		{"pubkey", "pubkeyu", "pubkeyx", "ecdsasign", "ecdsaverify", "schnorrsign", "schnorrverify", "taptweak"},
 		{"bip32master", "bip32priv", "bip32pub"},
+		{"fpheld"},
+		{"fpheld", "bip32pub", "xkey"},
 		{"base58", "wif", "addrmake", "addrdecode", "bech32", "xkey"},
 		{"xkey"},
 		{"rpcstorm"},
